@@ -20,6 +20,10 @@ def run(rep: Report, repo: Repo, tier: str) -> None:
     # the trigger string / strip patterns in effect are the configured ones: no CLI default may shadow them
     from .c16 import rule_cli_defaults
     rule_cli_defaults(rep, repo, "C03-R6")
+    # '**kwargs' exactly once: the in-place append of the signature code runs once per entry (who-may-call)
+    from . import misc_rules
+    misc_rules.rule_entry_methods_render_only(rep, repo, "C03-R7")
     if tier == "thorough":
         from . import trace_rules
         trace_rules.rule_kwargs_traces(rep, repo, "C03-I")
+
